@@ -9,7 +9,7 @@ import front, llparse, llsym
 
 ALLSRC = ['Numerics.cpp', 'Special_Functions.cpp', 'Utilities.cpp', 'Linear_Algebra.cpp', 'Integration.cpp', 'Statistics.cpp', 'Natural_Units.cpp']
 
-def ob(name, status, backend='EA', solver_s=0.0, detail='', model=None, key=None, sample=None, solver='z3'):
+def ob(name, status, backend='EA', solver_s=0.0, detail='', model=None, key=None, sample=None, solver='driver'):
     """status: discharged | undecided | candidate | broken"""
     if isinstance(model, dict):
         model = {k: (str(v) if llsym.is_sym(v) else [str(x) if llsym.is_sym(x) else x for x in v] if isinstance(v, (list, tuple)) else v) for k, v in model.items()}
@@ -219,7 +219,7 @@ def _run_job(job):
     t0 = time.time()
     try:
         res = fn(*args)
-        return {'obs': res, 'wall': time.time() - t0, 'rss_kb': resource.getrusage(resource.RUSAGE_SELF).ru_maxrss, 'job': fn.__name__ + repr(args)[:80]}
+        return {'obs': res, 'wall': time.time() - t0, 'rss_kb': resource.getrusage(resource.RUSAGE_SELF).ru_maxrss, 'job': fn.__name__ + repr(args)[:80], 'called': {k.lstrip('@'): v for k, v in llsym.CALLED.items()}}
     except llsym.Unsupported as e:
         return {'obs': [ob('%s%r' % (fn.__name__, args), 'undecided', detail='interpreter: ' + str(e))], 'wall': time.time() - t0, 'rss_kb': 0, 'job': fn.__name__}
     except Exception as e:
@@ -302,9 +302,10 @@ def main(argv):
         results = run_jobs(jobs, min(ctx.workers, len(jobs)), int(os.environ.get('VERIF_JOB_CAP_S', '900' if tier == 'quick' else '7200')))
     else:
         results = [_run_job(j) for j in jobs]
-    obs = []; jobstats = []
+    obs = []; jobstats = []; called = {}
     for r in results:
         obs.extend(r['obs']); jobstats.append({'job': r['job'], 'wall_s': round(r['wall'], 2), 'rss_mb': r['rss_kb'] // 1024})
+        for k, v in (r.get('called') or {}).items(): called[k] = called.get(k, 0) + v
     # translator validation (concrete interpreter run vs native build) -- part of every run
     tv = []
     if hasattr(modl, 'validate'):
@@ -355,10 +356,14 @@ def main(argv):
                            '(EA: exact real arithmetic, z3; BP: IR->C, CBMC bit-precise), every obligation is path-condition AND precondition AND NOT claim sent to the solver; '
                            'unsat = holds for all values inside the stated bounds. ' + getattr(modl, 'EXPLANATION', ''),
             'obligations': len(obs), 'discharged': nd, 'undecided': nu, 'violated': len(violations), 'known_findings_hit': len(knownhits), 'broken': len(brk),
-            'evaluations': len(obs), 'distinct_nontrivial': len(set(o['name'] for o in obs if o['status'] == 'discharged' and not o['name'].startswith('witness'))),
-            'rule': 'one evaluation = one solver query (obligation) over all symbolic inputs of its bound; distinct = distinct obligation names; witness (vacuity) queries are not counted as non-trivial',
+            'evaluations': len(obs), 'distinct_nontrivial': len(set(o['name'] for o in obs if o['status'] in ('discharged', 'violated', 'known') and str(o.get('solver', '')).startswith(('z3/', 'cbmc')) and not o['name'].startswith('witness'))),
+            'decided_by_driver': sum(1 for o in obs if not str(o.get('solver', '')).startswith(('z3/', 'cbmc'))),
+            'rule': 'one evaluation = one obligation over all symbolic inputs of its bound. Non-trivial = decided (unsat / confirmed model) by a solver query (z3 portfolio incl. the polynomial-expansion fast path, or CBMC); '
+                    'obligations the driver settles itself (structurally identical result terms, concrete values, path-coverage counters, translator validation) and vacuity witnesses are counted as trivial; distinct = distinct obligation names',
             'samples': samples,
-            'functions_encoded': {k: v for k, v in sorted(ctx.functions.items(), key=lambda kv: -kv[1])[:60]},
+            'functions_executed': {k: v for k, v in sorted(called.items(), key=lambda kv: -kv[1])[:80]},
+            'functions_executed_rule': 'functions of the lowered module that the symbolic interpreter entered in this run (mangled name: number of calls over all paths); the CBMC harnesses name their entry functions in the sample',
+            'module_functions': len(ctx.functions),
             'lowering': ctx.lower_info, 'bounds': getattr(modl, 'BOUNDS', {}).get(tier, getattr(modl, 'BOUNDS', {})), 'not_decided': getattr(modl, 'NOT_DECIDED', []),
             'by_backend': byback, 'solver_s_total': round(sum(o['solver_s'] for o in obs), 2), 'interp_feasibility_queries': llsym.STATS['feas_q'],
             'jobs': jobstats[:80], 'peak_rss_mb': max([j['rss_mb'] for j in jobstats] + [0]),
